@@ -16,7 +16,29 @@ def swarm(rng):
         # wide and deep inheritance between top-level spaces: rejections that arise two or more levels below the edited space
         cfg.update({"tops": ["A", "B", "C", "D", "E", "F"], "n_spaces": 6, "max_depth": 1, "p_bases": 0.9, "focus": "struct",
                     "p_sformula": 0.0})
+        if rng.random() < 0.4:
+            # a lattice in which taking an edge or a space away leaves a space further down without a linearisation
+            cfg.update({"lattice": rng.choice(["remove", "delete"]), "p_hostile": 0.7, "n_steps": 10})
     return cfg
+
+
+def _cells(space, name, v):
+    return {"op": "new_cells", "space": space, "name": name, "is_cached": True,
+            "formula": {"style": "lambda", "params": [], "ret": ["c", v]}}
+
+
+def _space(name, bases=()):
+    return {"op": "new_space", "parent": "", "name": name, "bases": list(bases)}
+
+
+LATTICES = {
+    # B without its direct base E linearises B, D, E, C; A(B, C, E) then has no order
+    "remove": [_space("E"), _cells("E", "f", 1005), _space("C"), _cells("C", "f", 1003), _space("D", ["E"]),
+               _space("B", ["D", "C", "E"]), _space("A", ["B", "C", "E"])],
+    # without C, B(E, D) linearises B, E, F, D; A(B, D, F) then has no order
+    "delete": [_space("F"), _cells("F", "f", 1006), _space("D"), _cells("D", "f", 1004), _space("E", ["F"]), _space("C", ["F"]),
+               _cells("C", "g", 1013), _space("B", ["E", "D", "C"]), _space("A", ["B", "D", "F"])],
+}
 
 
 def gen_path(p):
@@ -58,7 +80,12 @@ class RejectOracle(history.Oracle):
             if op.get("why"):
                 self.ctx.count(op["why"], 1, "hostile_rejected")
             self.ctx.nontrivial = True
-            after = describe.model_desc(self.mach.world.m)
+            try:
+                after = describe.model_desc(self.mach.world.m)
+            except Exception as e:
+                # the model could be described before the edit was refused
+                raise Violation("C11/rejected-edit-left-the-model-unreadable/%s/%s/%s" % (op["op"], out.get("exc"), type(e).__name__),
+                                {"op": {k: v for k, v in op.items() if k != "formula"}, "outcome": out, "error": str(e)[:200]})
             d = describe.diff(self.snap, after)
             if d:
                 raise Violation("C11/rejected-edit-mutated/%s/%s/%s" % (op["op"], out.get("exc"), gen_path(d)),
@@ -123,7 +150,10 @@ class C11(PropBase):
         cfg = ctx.cfg
         run = history.Run(ctx, cfg, [RejectOracle(), history.TwinOracle("C11")])
         if ctx.doc is None:
-            run.generate(c02.WEIGHTS[cfg["focus"]], cfg["n_steps"], cfg["p_check"])
+            if cfg.get("lattice"):
+                for op in LATTICES[cfg["lattice"]]:
+                    run.step(op)
+            run.generate(c02.WEIGHTS[cfg["focus"]], cfg["n_steps"], cfg["p_check"], build=not cfg.get("lattice"))
         else:
             run.replay(ctx.doc["steps"])
         run.finish()
